@@ -508,6 +508,8 @@ impl Python {
                         indent = indent,
                         indented_comments = comments
                             .iter()
+                            // three quotes inside the text would end the docstring early
+                            .map(|v| v.replace("\"\"\"", "\\\"\\\"\\\""))
                             .map(|v| format!("{}{}", indent, v))
                             .collect::<Vec<String>>()
                             .join("\n"),
